@@ -4,6 +4,7 @@
 //! (validated afterwards by TLC against the corresponding trace specification) and a JSON
 //! summary. No verdict is taken here.
 
+mod chain;
 mod framing;
 mod targets;
 mod util;
@@ -42,13 +43,19 @@ fn main() {
     let out = arg_val(&args, "--out").unwrap_or_else(|| "trace.ndjson".into());
     let summary = arg_val(&args, "--summary").unwrap_or_else(|| format!("{out}.summary.json"));
     // Panics inside the code under test are data, not crashes of the harness: keep them quiet.
-    std::panic::set_hook(Box::new(|_| {}));
+    std::panic::set_hook(Box::new(|info| {
+        static SHOWN: std::sync::atomic::AtomicUsize = std::sync::atomic::AtomicUsize::new(0);
+        if SHOWN.fetch_add(1, std::sync::atomic::Ordering::Relaxed) < 5 {
+            eprintln!("[zv] panic: {info}");
+        }
+    }));
     match cmd {
         "info" => {
             println!("{}", json!({"B": buffer_step(), "MAXB": buffer_max()}));
         }
         "framing" => cmd_framing(&args, seed, n, &out, &summary),
         "writing" => cmd_writing(&args, seed, n, &out, &summary),
+        "chain" => cmd_chain(&args, seed, n, &out, &summary),
         other => {
             eprintln!("unknown subcommand {other:?}");
             std::process::exit(2);
@@ -161,5 +168,47 @@ fn cmd_writing(args: &[String], seed: u64, n: u64, out: &str, summary: &str) {
         summary,
         &json!({"scenarios": stats.scenarios, "ops": stats.ops, "refused": stats.refused, "overflow": stats.overflow,
                 "writes": stats.writes, "events": lines, "B": buffer_step(), "MAXB": buffer_max()}),
+    );
+}
+
+fn cmd_chain(args: &[String], seed: u64, n: u64, out: &str, summary: &str) {
+    use chain::*;
+    let mut r = Rng::new(seed ^ 0xc4a1);
+    let mut scenarios: Vec<Scenario> = Vec::new();
+    let hold = arg_flag(args, "--hold");
+    if let Some(p) = arg_val(args, "--replay") {
+        for v in read_lines(&p) {
+            scenarios.push(Scenario::from_json(&v));
+        }
+    } else {
+        if let Some(p) = arg_val(args, "--behaviours") {
+            for (i, v) in read_lines(&p).iter().enumerate() {
+                scenarios.push(from_model_behaviour(v, format!("m{i}"), hold));
+            }
+        }
+        if let Some(k) = arg_val(args, "--all-flags").and_then(|s| s.parse::<usize>().ok()) {
+            gen_all_flags(&mut r, k, &mut scenarios, hold);
+        }
+        for i in 0..n {
+            let mut rr = r.fork();
+            scenarios.push(gen_random(&mut rr, format!("c{seed}-{i}"), hold));
+        }
+    }
+    util::log_open(out);
+    let mut stats = Stats { scenarios: 0, items: 0, held_checks: 0, held_changed: 0 };
+    let dump = arg_val(args, "--dump-scenarios");
+    let mut dumpw = dump.map(|p| std::io::BufWriter::new(std::fs::File::create(p).unwrap()));
+    for sc in &scenarios {
+        if let Some(w) = dumpw.as_mut() {
+            use std::io::Write;
+            writeln!(w, "{}", sc.to_json()).unwrap();
+        }
+        run(sc, &mut stats);
+    }
+    let lines = util::log_close();
+    util::write_json(
+        summary,
+        &json!({"scenarios": stats.scenarios, "items": stats.items, "held_checks": stats.held_checks,
+                "held_changed": stats.held_changed, "events": lines, "B": buffer_step(), "MAXB": buffer_max()}),
     );
 }
